@@ -275,11 +275,15 @@ int verif_snprintf(char *dst, size_t cap, const char *fmt, ...)
 
 static char vas_buf[VAS_MAX];
 static unsigned vas_live, vas_calls;
+SEQ_DECL(u8, vasfail);
 int lha_arch_vasprintf(char **result, char *fmt, va_list args)
 {
 	OutSink k;
 	unsigned i;
 	CHECK(vas_live == 0, "output model: one formatted string alive at a time");
+	/* the allocation inside vasprintf may fail: no string, negative result (whatever the tool does then must still not
+	 * put archive bytes on the terminal unsanitised) */
+	if (SEQ_NEXT(u8, vasfail) & 1) { *result = NULL; return -1; }
 	/* the buffer is cleared with concrete writes and the terminator is never stored at a (possibly symbolic)
 	 * position: everything behind the formatted bytes stays a concrete NUL, so the string loops of the real
 	 * safe_output() and of the model stop at a concrete bound */
